@@ -99,6 +99,7 @@ type Policy struct {
 	// kind the fork has: proposer slashing, attester slashing, attestations, exit, BLS change, sync aggregate,
 	// and — by timing the eth1 votes so that the tipping vote is this block's — deposits.
 	Showcase bool
+	burstSeq int
 	// MinActive: slashings and exits are not generated when fewer than this many validators would stay
 	// active. 0: max(2*SLOTS_PER_EPOCH, half of the genesis validators).
 	MinActive int
@@ -137,8 +138,9 @@ func (p *Policy) draw(rng *rand.Rand) *OpMix {
 		m.PayloadEdge = true
 	}
 	if p.BurstProb > 0 && rng.Float64() < p.BurstProb {
-		m.Fill = []string{[]string{"proposer_slashings", "attester_slashings", "attester_slashings", "exits", "exits", "deposits", "deposits",
-			"bls_changes", "bls_changes", "bls_changes"}[rng.Intn(10)]}
+		kinds := []string{"proposer_slashings", "bls_changes", "attester_slashings", "exits", "deposits", "bls_changes"}
+		m.Fill = []string{kinds[p.burstSeq%len(kinds)]} // round robin: every kind gets its turn
+		p.burstSeq++
 	}
 	return m
 }
